@@ -223,6 +223,7 @@ def main(quick=False):
     audit("searchsorted right (array)", lambda m, a, v: m.searchsorted(a, v, side="right"), lambda m, a, v: m.searchsorted(a, v, side="right"),
           [(a, v) for a in sorted_A[::9] for v in A[::21] if len(v)])
     audit("argsort (mergesort)", lambda m, x: m.argsort(x, kind="mergesort"), lambda m, x: m.argsort(x, kind="mergesort"), [(x,) for x in A[::2]])
+    audit("unique(return_index)", lambda m, x: m.unique(x, return_index=True), lambda m, x: m.unique(x, return_index=True), [(x,) for x in A[::2]])
     audit("bincount", lambda m, x, k: m.bincount(x, minlength=k), lambda m, x, k: m.bincount(x, minlength=k), [(x, k) for x in NN[::3] for k in (0, 2, 5)],
           max_index=6)
     audit("fancy assignment a[idx] = v", lambda m, a, i, v: (a.__setitem__(i, v), a)[1], lambda m, a, i, v: (a.__setitem__(i, v), a)[1],
